@@ -123,7 +123,7 @@ package engine
 //@        && (forall k string :: has(knowledge.RuleEntries, k) && active(RE(knowledge, k)) ==> $evalStamp[RE(knowledge, k)] == $stamp && $evalCnt[RE(knowledge, k)] == 1 && $notifStamp[RE(knowledge, k)] == $stamp)
 // C06: an error that is neither a cancellation, an action failure, a (flagged) evaluation failure nor a bad argument is the cycle-limit error,
 // and it is returned exactly when the budget is used up and one more firing would be needed
-//@   ensures[C06] limit: err != nil && knowledge != nil && dataCtx != nil && !$addFailed && !$ctxErrSeen && !$actionFailed && !($evalFailed && g.ReturnErrOnFailedRuleEvaluation)
+//@   ensures[C06] limit: err != nil && $runBegin > 0 && !$ctxErrSeen && !$actionFailed && !($evalFailed && g.ReturnErrOnFailedRuleEvaluation)
 //@        ==> $runExec == g.MaxCycle && (exists re *ast.RuleEntry :: candNow(re))
 // C10: after Complete the run ends with nil right after that firing: no evaluation, notification or firing in between
 //@   ensures[C10] complete: err == nil && $runExec > 0 && $complete[dataCtx] ==> $sinceExec == 0
@@ -139,7 +139,7 @@ package engine
 //@   invariant@1 ghostwf: ghostWF()
 //@   invariant@1[C08] fresh: $runBegin == 0 ==> memoClear(knowledge.WorkingMemory) && noneRetracted(knowledge) && knowledge.DataContext == dataCtx
 //@   invariant@1 notcomplete: $runExec > 0 ==> !$complete[dataCtx]
-//@   invariant@1 nofail: !$actionFailed && !($evalFailed && g.ReturnErrOnFailedRuleEvaluation) && !$addFailed
+//@   invariant@1 nofail: !$actionFailed && !($evalFailed && g.ReturnErrOnFailedRuleEvaluation)
 //@   invariant@1 kb: knowledge != nil && dataCtx != nil && knowledge.WorkingMemory != nil && KBInv(knowledge)
 //@   invariant@1[C15] cancel: old($cancelled) ==> $runExec == 0 && $cancelled
 //@   invariant@1[C15,C02] noctxerr: !$ctxErrSeen
@@ -168,7 +168,7 @@ package engine
 //@   requires knowledge != nil ==> knowledge.WorkingMemory != nil && KBInv(knowledge) && WMInv(knowledge.WorkingMemory)
 //@   requires ghostWF()
 //@   nopanic
-//@   modifies @memo, @ctxghost, alloc, ast.BuiltInFunctions.*, ast.KnowledgeBase.DataContext, ast.RuleEntry.Retracted, $stamp, $evalStamp, $evalCnt, $evalCand, $evalFailed, $addFailed, $sinceExec
+//@   modifies @memo, $exprRes, @setlog, @ctxghost, alloc, ast.BuiltInFunctions.*, ast.KnowledgeBase.DataContext, ast.RuleEntry.Retracted, $stamp, $evalStamp, $evalCnt, $evalCand, $evalFailed, $addFailed, $sinceExec
 //@   ghost_entry $stamp = $stamp + 1
 //@   ghost_entry $evalFailed = false
 //@   ensures[C11] members: err == nil ==> (forall k int :: 0 <= k && k < len(res) ==> res[k] != nil && candNow(res[k]) && !res[k].Deleted)
